@@ -249,6 +249,14 @@ func runC10(e *Env) error {
 		{map[string]string{"L0": "{% extends 'L1' %}{% block a %}top({{ parent() }}){% endblock %}", "L1": "{% extends 'L2' %}{% block a %}mid({{ parent() }}){% endblock %}", "L2": "[{% block a %}base{% endblock %}]"}, "[top(mid(base))]"},
 		{map[string]string{"L0": "{% extends 'L1' %}{% block a %}o<{{ parent() }}>{% endblock %}", "L1": "{% for i in [1,2] %}{% block a %}b{{ i }}{% endblock %}{% endfor %}"}, "o<b1>o<b2>"},
 		{map[string]string{"L0": "x{% extends 'L1' %}y{% block a %}A{% endblock %}z", "L1": "[{% block a %}{% endblock %}|{% block b %}B{% endblock %}]"}, "[A|B]"},
+		// several parent() calls in one block body, at three levels, also inside a loop: each call renders the next level up
+		{map[string]string{"L0": "{% extends 'L1' %}{% block a %}top({{ parent() }}|{{ parent() }}){% endblock %}", "L1": "{% extends 'L2' %}{% block a %}mid({{ parent() }}){% endblock %}", "L2": "[{% block a %}base{% endblock %}]"}, "[top(mid(base)|mid(base))]"},
+		{map[string]string{"L0": "{% extends 'L1' %}{% block a %}{% for i in [1, 2, 3] %}{{ i }}{{ parent() }};{% endfor %}{% endblock %}", "L1": "{% extends 'L2' %}{% block a %}m{{ parent() }}{{ parent() }}{% endblock %}", "L2": "<{% block a %}b{% endblock %}>"}, "<1mbb;2mbb;3mbb;>"},
+		// tags of a child template that stand outside its blocks produce no output (only the parent's layout is rendered)
+		{map[string]string{"L0": "{% extends 'L1' %}{% if true %}IF{% endif %}{% for i in [1, 2] %}F{{ i }}{% endfor %}{% include 'inc0' %}{{ 'print' }}{% block a %}A{% endblock %}{% set z = 1 %}tail",
+			"L1": "[{% block a %}{% endblock %}]", "inc0": "INCLUDED"}, "[A]"},
+		{map[string]string{"L0": "{% extends 'L1' %}{% block a %}A{{ parent() }}{% endblock %}", "L1": "{% extends 'L2' %}{% if true %}MIDIF{% endif %}{% include 'inc0' %}{% block a %}M{{ parent() }}{% endblock %}{% for i in [1] %}x{% endfor %}",
+			"L2": "[{% block a %}B{% endblock %}]", "inc0": "INCLUDED"}, "[AMB]"},
 		// two inheritance chains in one render: a page chain INCLUDES a template that has a chain of its own using the same
 		// block names — each chain resolves its blocks within itself, before, inside and after the include
 		{map[string]string{"L0": "{% extends 'L1' %}{% block title %}Home/{{ parent() }}{% endblock %}{% block body %}<{% include 'card' %}>{% block title2 %}t2{% endblock %}{% endblock %}",
